@@ -16,7 +16,9 @@ and order independence is proved under separation of the CLAIMED scores
 -/
 import Restful.Lemmas.Order
 import Restful.Lemmas.OrderJsr
+import Restful.Lemmas.C03Holds
 import Restful.Lemmas.StateShape
+import Restful.Lemmas.Translated
 namespace Restful
 namespace Props
 variable (E : ReEnv)
@@ -170,11 +172,138 @@ theorem C03_F05_witness :
     Spec.scoresSeparateB { router := .curly, services := [f05SvcVars, f05SvcLit] } f05Req = false := by
   decide
 
+/-! ### C03 as a predicate on one outcome (`Spec.c03Holds`, evaluated by the driver on every REAL outcome)
+
+`Spec.c03Holds E cfg req o` (Spec/Order.lean) — when `o = .selected s r ps`, some declaration with
+that identity is not beaten by another candidate:
+  * no other route of its WebService that admits the URL and is eligible for the request has a
+    `moreSpecific` template (CurlyRouter: `readTemplate rt.path` / `Spec.admits E .curly`;
+    RouterJSR311: the route-relative tokens matched against what the root leaves of the URL);
+  * CurlyRouter: no other WebService whose root claims the URL has a root that is the selected root
+    with variables replaced by literals, or a proper extension of it;
+  * RouterJSR311: among literal roots none that matches the URL has more literal characters.
+
+Hypotheses: the router kind and `cfg.wfTemplates` only.  `wfTemplates` is what makes the structured
+reading of the SELECTED route's template exist (the predicate answers `false` when it cannot read
+it); a competitor whose template does not read is not a competitor.  No hypothesis about root
+paths is needed: `C03_root_literal_beats_variable` asks for non-empty tokens of the more specific
+root, but when both roots claim the same URL that condition is superfluous
+(`C03_root_literal_beats_variable_claimed` below: an empty root token is matched by an empty URL
+segment only, and there the other root has an empty token too), and
+`C03_jsr_literal_root_longest` needs only the two roots compared to be literal, not all of them. -/
+
+/-- `C03_root_literal_beats_variable` without its side condition on empty tokens -/
+theorem C03_root_literal_beats_variable_claimed (qs a b : List Str)
+    (h : Spec.rootMoreSpecific a b = true) (sa sb : Nat)
+    (ha : Curly.wsScore qs a = some sa) (hb : Curly.wsScore qs b = some sb) : sa > sb :=
+  Restful.C03_root_literal_beats_variable' qs a b h sa sb ha hb
+
+/-- CurlyRouter: whatever is selected is never less specific than another candidate, at route
+    level and at root level -/
+theorem C03_holds_curly (cfg : Config) (hwf : cfg.wfTemplates = true) (hk : cfg.router = .curly) (req : Req) :
+    Spec.c03Holds E cfg req (route E cfg req) = true := by
+  unfold route routeTagged
+  rw [hk]
+  exact Restful.c03Holds_curly E cfg hwf hk req
+
+/-- RouterJSR311: whatever is selected is never less specific than another candidate of the
+    dispatched WebService, and among literal roots the longest matching one is dispatched to -/
+theorem C03_holds_jsr (cfg : Config) (hwf : cfg.wfTemplates = true) (hk : cfg.router = .jsr) (req : Req) :
+    Spec.c03Holds E cfg req (route E cfg req) = true := by
+  unfold route routeTagged
+  rw [hk]
+  exact Restful.c03Holds_jsr E cfg hwf hk req
+
+/-- non-vacuity (CurlyRouter): `/users` (GET /{id}, GET /me, POST /{id}) and `/{tenant}` (GET /{thing}),
+    request GET /users/me.  The table is well formed; BOTH roots claim the URL and the literal one is
+    `rootMoreSpecific`; in `/users` TWO routes are candidates (`/{id}` and `/me`); the model selects
+    the literal route 11, of which the predicate holds — and it is falsified by each less specific
+    choice: route 10 (`/{id}`) of the same service, and route 20 of the variable root. -/
+example :
+    C03Example.cfg.wfTemplates = true ∧ C03Example.cfg.router = .curly ∧
+    (Spec.rootCandidates C03Example.E0 C03Example.cfg C03Example.req).map (·.id) = [1, 2] ∧
+    Spec.rootMoreSpecific (tokenize C03Example.users.rootPath) (tokenize C03Example.tenants.rootPath) = true ∧
+    (Spec.routeCandidates C03Example.E0 .curly C03Example.users C03Example.req).map (·.id) = [10, 11] ∧
+    route C03Example.E0 C03Example.cfg C03Example.req = .selected 1 11 [] ∧
+    Spec.c03Holds C03Example.E0 C03Example.cfg C03Example.req (route C03Example.E0 C03Example.cfg C03Example.req) = true ∧
+    Spec.c03Holds C03Example.E0 C03Example.cfg C03Example.req (.selected 1 10 [("id".toList, "me".toList)]) = false ∧
+    Spec.c03Holds C03Example.E0 C03Example.cfg C03Example.req
+      (.selected 2 20 [("tenant".toList, "users".toList), ("thing".toList, "me".toList)]) = false := by
+  decide
+
+/-- a longer root: `/users/admin` next to `/users`; a request below both is not to be served by the prefix -/
+def curlyNested : Config := { router := .curly, services := [C03JsrExample.users, C03JsrExample.admin] }
+
+example :
+    curlyNested.wfTemplates = true ∧
+    (Spec.rootCandidates C03Example.E0 curlyNested C03JsrExample.req).map (·.id) = [1, 2] ∧
+    Spec.rootProperExtension (tokenize C03JsrExample.admin.rootPath) (tokenize C03JsrExample.users.rootPath) = true ∧
+    route C03Example.E0 curlyNested C03JsrExample.req = .selected 2 21 [] ∧
+    Spec.c03Holds C03Example.E0 curlyNested C03JsrExample.req (route C03Example.E0 curlyNested C03JsrExample.req) = true := by
+  decide
+
+/-- non-vacuity (RouterJSR311): `/users` (GET /{id}, GET /me, POST /{id}) and `/users/admin`
+    (GET /{thing}, GET /x), request GET /users/admin/x.  Both literal roots match the URL; in
+    `/users/admin` TWO routes are candidates; the model selects the literal route 21 of the longer
+    root; the predicate holds of it and is falsified by the variable route 20 of the same service. -/
+example :
+    C03JsrExample.cfg.wfTemplates = true ∧ C03JsrExample.cfg.router = .jsr ∧
+    (Spec.rootCandidates C03Example.E0 C03JsrExample.cfg C03JsrExample.req).map
+      (fun s => (s.id, (Spec.jsrLiteralRoot s).map (·.literalCount))) = [(1, some 5), (2, some 10)] ∧
+    (Spec.routeCandidates C03Example.E0 .jsr C03JsrExample.admin C03JsrExample.req).map (·.id) = [20, 21] ∧
+    route C03Example.E0 C03JsrExample.cfg C03JsrExample.req = .selected 2 21 [] ∧
+    Spec.c03Holds C03Example.E0 C03JsrExample.cfg C03JsrExample.req
+      (route C03Example.E0 C03JsrExample.cfg C03JsrExample.req) = true ∧
+    Spec.c03Holds C03Example.E0 C03JsrExample.cfg C03JsrExample.req
+      (.selected 2 20 [("thing".toList, "x".toList)]) = false := by
+  decide
+
+/-- the root-level clause discriminates too: GET /users/admin is matched by both roots; the longer
+    root `/users/admin` is dispatched to and has no route for it (404).  An implementation that
+    answered from the prefix root `/users` (route 10, `/{id}` = "admin") would falsify the predicate. -/
+example :
+    route C03Example.E0 C03JsrExample.cfg { method := "GET".toList, path := "/users/admin".toList } = .error 404 none ∧
+    Spec.c03Holds C03Example.E0 C03JsrExample.cfg { method := "GET".toList, path := "/users/admin".toList }
+      (.selected 1 10 [("id".toList, "admin".toList)]) = false := by
+  decide
+
+/-! #### RouterJSR311 and root paths with variables: outside the predicate, and why
+
+The property says "among WebService root paths a literal beats a variable".  RouterJSR311 ranks its
+dispatcher candidates by the number of capture groups FIRST (jsr311.go:305 `matchesCount`, then
+literal characters): a root with a variable beats a literal root that matches the same URL.  So
+that clause is false for RouterJSR311 as soon as a root has a variable; the root-level clause of
+`Spec.c03Holds` for RouterJSR311 therefore speaks about literal roots only (as `C03_jsr_order`
+does), and the witness is recorded here instead of being silently dropped. -/
+
+def jsrVarRootCfg : Config := { router := .jsr, services :=
+  [{ id := 1, root := "/{x}".toList, routes := [C03Example.rGet 10 "/b"] },
+   { id := 2, root := "/a".toList, routes := [C03Example.rGet 20 "/b"] }] }
+
+/-- RouterJSR311 dispatches GET /a/b to the root `/{x}` although the literal root `/a` matches
+    (in either registration order); CurlyRouter, on the same table, dispatches to `/a` -/
+theorem C03_jsr_variable_root_witness :
+    route C03Example.E0 jsrVarRootCfg { method := "GET".toList, path := "/a/b".toList } =
+      .selected 1 10 [("x".toList, "a".toList)] ∧
+    route C03Example.E0 { jsrVarRootCfg with services := jsrVarRootCfg.services.reverse }
+      { method := "GET".toList, path := "/a/b".toList } = .selected 1 10 [("x".toList, "a".toList)] ∧
+    route C03Example.E0 { jsrVarRootCfg with router := .curly } { method := "GET".toList, path := "/a/b".toList } =
+      .selected 2 20 [] ∧
+    Spec.rootMoreSpecific (tokenize "/a".toList) (tokenize "/{x}".toList) = true := by
+  decide
+
 /-! The frame condition (Lemmas/StateShape.lean): the code has exactly the state this property's model
     accounts for — no further package-level variable, struct type or field; constants as modelled. -/
 -- also: Restful.StateShape.globals_shape
 -- also: Restful.StateShape.consts_shape
 -- also: Restful.StateShape.routing_shape
+
+/-! The regenerated tie (tools/gotrans → Gen/Translated.lean, Lemmas/Translated.lean): the decision
+    functions this property's model contains ARE the ones translated from the Go sources on this run. -/
+-- also: Restful.Tie.curly_less
+-- also: Restful.Tie.jsr_route_less
+-- also: Restful.Tie.jsr_dispatcher_less
+-- also: Restful.Tie.sort_call_sites
 
 end Props
 end Restful
